@@ -95,6 +95,19 @@ func isTarget(x ssa.Instruction) func(ssa.Instruction) bool {
 	return func(in ssa.Instruction) bool { return in == x }
 }
 
+// successReturn: the return instruction ret, reached on a path on which its error result (index errIdx) may be nil.
+// The nil-ness is judged with what the path has established (core/pathfacts.go): `return err` on the branch taken
+// because err != nil is not a success, and a single final `return verdict` is a success only on the paths that
+// carried nil into verdict.
+func successReturn(ret *ssa.Return, errIdx int) func(ssa.Instruction) bool {
+	return func(in ssa.Instruction) bool {
+		if in != ssa.Instruction(ret) {
+			return false
+		}
+		return errIdx < 0 || errIdx >= len(ret.Results) || core.ResultNilness(ret, errIdx) != core.NonNil
+	}
+}
+
 func union(ms ...map[core.Edge]bool) map[core.Edge]bool {
 	out := map[core.Edge]bool{}
 	for _, m := range ms {
@@ -685,9 +698,9 @@ func checkTrailing(c *core.Ctx, rel, recv, name string) {
 		}
 		n++
 		rk := fmt.Sprintf("%s#return[%s]", key, describeReturn(ret, errIdx))
-		path, reached := core.Reach(fn, nil, isTarget(ret), union(fast, umNil), nil)
+		path, reached := core.Reach(fn, nil, successReturn(ret, errIdx), union(fast, umNil), nil)
 		c.Check(!reached, rk+"-after-unmarshal-ok", p.Pos(ret.Pos()), "behind the nil edge of the unmarshal error", "possibly-nil return reachable although unmarshalling failed", p.Witness(path)...)
-		path, reached = core.Reach(fn, nil, isTarget(ret), union(fast, dontParse, eofEdges), nil)
+		path, reached = core.Reach(fn, nil, successReturn(ret, errIdx), union(fast, dontParse, eofEdges), nil)
 		c.Check(!reached, rk+"-eof", p.Pos(ret.Pos()), "behind err == io.EOF of a read after unmarshalling (or DontParseBeyondEnd)", "possibly-nil return reachable without having observed io.EOF on the input after the item: trailing bytes would be accepted", p.Witness(path)...)
 	}
 	if n == 0 {
